@@ -2335,8 +2335,18 @@ class WBEMConnection:  # pylint: disable=too-many-instance-attributes
 
         if tup_tree and tup_tree[0][0] == 'RETURNVALUE':
 
-            returnvalue = _cimvalue_from_cimxml(
-                tup_tree[0][2], tup_tree[0][1]['PARAMTYPE'], self.conn_id)
+            if 'PARAMTYPE' not in tup_tree[0][1]:
+                raise CIMXMLParseError(
+                    "Element RETURNVALUE is missing the PARAMTYPE attribute",
+                    conn_id=self.conn_id)
+            try:
+                returnvalue = _cimvalue_from_cimxml(
+                    tup_tree[0][2], tup_tree[0][1]['PARAMTYPE'], self.conn_id)
+            except (ValueError, TypeError) as exc:
+                raise CIMXMLParseError(
+                    _format("Invalid value or PARAMTYPE in element "
+                            "RETURNVALUE: {0}", exc),
+                    conn_id=self.conn_id)
             tup_tree = tup_tree[1:]
 
         # Convert zero or more PARAMVALUE elements into dictionary
@@ -2344,11 +2354,21 @@ class WBEMConnection:  # pylint: disable=too-many-instance-attributes
         output_params = NocaseDict()
 
         for p in tup_tree:
+            if p[0] == 'RETURNVALUE':
+                raise CIMXMLParseError(
+                    "More than one RETURNVALUE element in METHODRESPONSE",
+                    conn_id=self.conn_id)
             if p[1] == 'reference':
                 output_params[p[0]] = p[2]
             else:
-                output_params[p[0]] = _cimvalue_from_cimxml(
-                    p[2], p[1], self.conn_id)
+                try:
+                    output_params[p[0]] = _cimvalue_from_cimxml(
+                        p[2], p[1], self.conn_id)
+                except (ValueError, TypeError) as exc:
+                    raise CIMXMLParseError(
+                        _format("Invalid value or PARAMTYPE in element "
+                                "PARAMVALUE {0!A}: {1}", p[0], exc),
+                        conn_id=self.conn_id)
 
         return (returnvalue, output_params)
 
